@@ -105,9 +105,10 @@ pub enum GcSchedule {
 
 #[derive(Debug, Clone, Copy, PartialEq, Eq)]
 pub enum AllocEvent {
-    Alloc { ptr: usize, size: usize, charged: usize },
-    Dealloc { ptr: usize, size: usize, charged: usize },
-    Fail { size: usize, charged: usize },
+    /// `counter` is the value of the allocator's byte counter after the event
+    Alloc { ptr: usize, size: usize, charged: usize, counter: usize },
+    Dealloc { ptr: usize, size: usize, charged: usize, counter: usize },
+    Fail { size: usize, charged: usize, counter: usize },
 }
 
 /// Hooks living inside `CaoLangAllocator`.
@@ -143,20 +144,20 @@ impl AllocHooks {
             }
         }
     }
-    pub(crate) fn on_alloc(&mut self, ptr: usize, size: usize, charged: usize) {
+    pub(crate) fn on_alloc(&mut self, ptr: usize, size: usize, charged: usize, counter: usize) {
         if self.record_events {
-            self.events.push(AllocEvent::Alloc { ptr, size, charged });
+            self.events.push(AllocEvent::Alloc { ptr, size, charged, counter });
         }
     }
-    pub(crate) fn on_dealloc(&mut self, ptr: usize, size: usize, charged: usize) {
+    pub(crate) fn on_dealloc(&mut self, ptr: usize, size: usize, charged: usize, counter: usize) {
         if self.record_events {
-            self.events.push(AllocEvent::Dealloc { ptr, size, charged });
+            self.events.push(AllocEvent::Dealloc { ptr, size, charged, counter });
         }
     }
-    pub(crate) fn on_fail(&mut self, size: usize, charged: usize) {
+    pub(crate) fn on_fail(&mut self, size: usize, charged: usize, counter: usize) {
         self.alloc_index += 1;
         if self.record_events {
-            self.events.push(AllocEvent::Fail { size, charged });
+            self.events.push(AllocEvent::Fail { size, charged, counter });
         }
     }
 }
